@@ -100,6 +100,7 @@ KEY_POOL = [
     "x_metador_y", "raw_metador_meta_", "_metador_container", "ametador_", "Metador_x", "metador",
     "q" * 63, "metadata", "dot.", "#", "$v", "a+b", "a,b", "k'", '"', "\\", "|", "^", "`", "{}", ";",
 ]
+LOOKALIKES = ["x_metador_y", "raw_metador_meta_", "_metador_container", "ametador_", "Metador_x", "metador"]
 ABSTRACT_KEYS = ["a", "b", "c"]
 ABSTRACT_ATTRS = ["k", "l"]
 
@@ -109,6 +110,9 @@ class KeyMap:
         if concrete:
             ks = rng.sample(KEY_POOL, len(ABSTRACT_KEYS))
             aks = rng.sample(KEY_POOL, len(ABSTRACT_ATTRS))
+            if rng.random() < 0.35:
+                # one name that merely contains reserved-looking text
+                ks[rng.randrange(len(ks))] = rng.choice([x for x in LOOKALIKES if x not in ks] or LOOKALIKES)
             if rng.random() < 0.4:
                 # sibling names one of which is a proper prefix of the other (run1 / run10)
                 base = rng.choice(["run1", "a", "x-", "d.0", KEY_POOL[rng.randrange(len(KEY_POOL))][:20]])
@@ -116,6 +120,9 @@ class KeyMap:
                 rng.shuffle(fam)
                 ks = fam[: len(ABSTRACT_KEYS)] if rng.random() < 0.5 else [fam[0], fam[1], ks[2] if ks[2] not in fam else fam[2]]
                 rng.shuffle(ks)
+            for j in range(len(ks)):      # distinct names
+                while ks[j] in ks[:j]:
+                    ks[j] = ks[j] + "2"
         else:
             ks, aks = list(ABSTRACT_KEYS), list(ABSTRACT_ATTRS)
         self.k = dict(zip(ABSTRACT_KEYS, ks))
